@@ -43,6 +43,7 @@ func runC14(c *Ctx) {
 	c.Rule("R3", "RocksDB: each method uses the handle of its own table", 4)
 	c.Rule("R4", "one batch per Mutate; iterators released", 4)
 	c.Rule("R5", "absence = ErrKeyNotFound, decided by nil-ness", 4)
+	c.Rule("R6", "cgo wrapper (syntax-level): a key is reported absent only when the C value pointer is NULL", 2)
 	consts := tableConsts(p)
 	if len(consts) < 5 {
 		c.Fail("R1", "tables", 0, fmt.Sprintf("only %d storage.Table constants", len(consts)))
@@ -115,6 +116,7 @@ func runC14(c *Ctx) {
 		}
 	}
 	c14Absence(c)
+	wrapperAbsence(c, "R6")
 }
 
 func isPrefixDerived(t *Term) bool {
